@@ -22,7 +22,7 @@ Rec == TraceRecs[k]
 
 CfgOf(r) == [intercept |-> r.cfg.intercept, flags |-> {r.cfg.flags[i] : i \in DOMAIN r.cfg.flags},
              avail |-> [present |-> r.cfg.present, vars |-> r.cfg.vars]]
-TokOf(t) == [k |-> t.k, s |-> t.s, cs |-> t.cs, vars |-> t.vars]
+TokOf(t) == [k |-> t.k, s |-> t.s, cs |-> t.cs, vars |-> t.vars, num |-> t.num, ival |-> t.ival]
 ToksOf(r) == [i \in DOMAIN r.toks |-> TokOf(r.toks[i])]
 
 RECURSIVE Join(_, _)
